@@ -514,7 +514,7 @@ C15_RegisteredOnce == Quiescent => E.pending = SumSeq(E.qpending)
 ---- \* C16 status
 C16_Forward == E.ev = "ret" /\ E.op \in {"Status", "Wait"} /\ E.res # "nohandle" /\ E.job \in Jobs => Rank(E.st) >= R.rankFloor
 C16_InWF == E.ev \in {"enter", "exit"} /\ E.job \in Jobs => E.st = "Processing"
-C16_ClosedAfterWait == E.ev = "ret" /\ E.op \in {"Status", "Wait"} /\ E.res # "nohandle" /\ E.job \in Jobs /\ R.waitedBefore => E.st = "Closed"
+C16_ClosedAfterWait == E.ev = "ret" /\ E.op \in {"Status", "Wait"} /\ E.res # "nohandle" /\ E.job \in Jobs /\ (R.waitedBefore \/ E.op = "Wait") => E.st = "Closed"
 C16_AtRest == Quiescent => \A j \in Jobs : exits[j] >= 1 /\ E.jst[ToString(j)] # "" => E.jst[ToString(j)] = "Closed"
 
 ---- \* C17 counters
